@@ -824,6 +824,14 @@ int liberasurecode_reconstruct_fragment(int desc,
         goto out;
     }
 
+    if (fragment_len < sizeof(fragment_header_t)) {
+        log_error("Fragments not long enough to include headers! "
+                  "Need %zu, but got %lu.", sizeof(fragment_header_t),
+                  (unsigned long)fragment_len);
+        ret = -EBADHEADER;
+        goto out;
+    }
+
     k = instance->args.uargs.k;
     m = instance->args.uargs.m;
 
